@@ -141,6 +141,26 @@ for nserv in (1, 2, 3, 5):
             if r is not True or not args_ok or sorted(map(repr, sent)) != sorted(repr((owner[sk], sk)) for sk in stripped):
                 fail(op="delete_many", servers=nserv, keys=repr(keys)[:200], sent=repr(log)[:300], result=repr(r)); break
             hc.set_many({k: ("v-%r" % (sk,)) for k, sk in zip(keys, stripped)})
+            # a server joins after keys have been used: single-key and multi-key calls follow the NEW placement alike
+            if nserv >= 2:
+                import pymemcache.client.hash as hmod2
+                saved_pc2 = getattr(hmod2, "PooledClient", None)
+                hmod2.PooledClient = FakeClient
+                try:
+                    hc.add_server(("10.0.9.%d" % nserv, 11299))
+                finally:
+                    hmod2.PooledClient = saved_pc2
+                for k, rk, sk in list(zip(keys, routekey, stripped))[:12]:
+                    want_srv = hc.clients[hc.hasher.get_node(rk)].server
+                    for op, call in (("get", lambda: hc.get(k)), ("get_many", lambda: hc.get_many([k])), ("set", lambda: hc.set(k, "z"))):
+                        del log[:]
+                        call()
+                        if [x[0] for x in log] != [want_srv]:
+                            fail(op=op + " after add_server", key=repr(k), contacted=repr(log), placement=repr(want_srv)); break
+                    if bad: break
+                if bad: break
+                owner = {sk: hc.clients[hc.hasher.get_node(rk)].server for k, rk, sk in zip(keys, routekey, stripped)}
+                hc.set_many({k: ("v-%r" % (sk,)) for k, sk in zip(keys, stripped)})
             # set then delete / incr / touch go to the same server as set
             for k, sk in list(zip(keys, stripped))[:5]:
                 for op, call in (("set", lambda: hc.set(k, "w")), ("incr", lambda: hc.incr(k, 1)), ("touch", lambda: hc.touch(k, 5)), ("delete", lambda: hc.delete(k))):
